@@ -73,4 +73,43 @@ def lineStep (c : Chain) (line : String) : Chain × String :=
      | none => (c, "bad-op"))
   | _ => (c, "bad-op")
 
+/-!
+Several `ScopedDict` objects alive at once (C12, round 4): object `i` has an optional parent (an
+object created earlier) and its own local scope.  Every object is a handle the caller may keep:
+an outer scope can be written while inner scopes still exist, and every lookup from an inner
+scope must see the chain *as it is now*.
+-/
+abbrev Forest := List (Option Nat × Scope)
+
+/-- the chain seen from object `i`, innermost first (fuel: parents are earlier objects) -/
+def chainOf (f : Forest) : Nat → Nat → Chain
+  | 0, _ => []
+  | fuel + 1, i =>
+    match f[i]? with
+    | none => []
+    | some (none, s) => [s]
+    | some (some p, s) => s :: chainOf f fuel p
+
+/-- protocol: `new` creates a root object, `new p` a child of object `p`; `at i <line>` runs a
+`set/get/getitem/contains` line of `lineStep` on the chain seen from object `i` (a `set` writes
+the local scope of object `i` only). -/
+def flineStep (f : Forest) (line : String) : Forest × String :=
+  match words line with
+  | ["reset"] => ([(none, [])], "ok")
+  | ["new"] => (f ++ [(none, [])], "ok")
+  | ["new", p] =>
+    (match p.toNat? with
+     | some p => if p < f.length then (f ++ [(some p, [])], "ok") else (f, "bad-op")
+     | none => (f, "bad-op"))
+  | "at" :: i :: op :: rest =>
+    (match i.toNat?, f[i.toNat?.getD 0]? with
+     | some i, some (p, _) =>
+       if op = "set" ∨ op = "get" ∨ op = "getitem" ∨ op = "contains" then
+         match lineStep (chainOf f f.length i) (" ".intercalate (op :: rest)) with
+         | (s :: _, out) => (if op = "set" then f.set i (p, s) else f, out)
+         | ([], out) => (f, out)
+       else (f, "bad-op")
+     | _, _ => (f, "bad-op"))
+  | _ => (f, "bad-op")
+
 end Xdsl.ScopedDict
